@@ -54,15 +54,15 @@ def size_of(lines):
     return sum(len(l.split()) for l in lines)
 
 
-def minimise(c_exe, lean_exe, lines, init, san, kind, tag, detail=""):
-    """drop whole ops while the same kind of failure at the same kind of op remains"""
+def minimise(c_exe, lean_exe, lines, init, san, sig, detail=""):
+    """drop query ops (never the data) while exactly the same failure remains"""
     cur = list(lines)
     changed = True
     budget = 8 if "time limit" in detail else 60
     while changed and budget > 0:
         changed = False
         for i in range(len(cur) - 1, -1, -1):
-            if cur[i].split()[0] in ("ds", "ts", "dump", "tdump", "tfin"):
+            if cur[i].split()[0] in ("ds", "ts", "dump", "tdump", "tfin", "add", "tadd", "copy", "tcopy"):
                 continue
             cand = cur[:i] + cur[i + 1:]
             budget -= 1
@@ -72,7 +72,7 @@ def minimise(c_exe, lean_exe, lines, init, san, kind, tag, detail=""):
                 r = sc.check_case(c_exe, lean_exe, cand, init, san=san)
             except RuntimeError:
                 continue
-            if not r["ok"] and r["kind"] == kind and (r.get("op") or "?").split()[0] == tag:
+            if not r["ok"] and signature(r) == sig:
                 cur = cand
                 changed = True
     return cur
@@ -183,7 +183,7 @@ def run(chk):
     diverge = [(s, g) for s, g in groups.items() if g[2]["kind"] not in ("abort", "violation", "sanitizer")]
     concrete.sort(key=lambda sg: size_of(sg[1][2]["lines"]))
     for s, (v, meta, r) in concrete[:12]:
-        small = minimise(exes[v], lean_exe, r["lines"], init, v == "san", r["kind"], s[1], r["detail"])
+        small = minimise(exes[v], lean_exe, r["lines"], init, v == "san", s, r["detail"])
         r2 = safe_check(exes[v], lean_exe, small, init, v == "san")
         if r2["ok"]:
             small, r2 = r["lines"], r
